@@ -113,7 +113,7 @@ def sc_replay_edges(chk, exe, edges, phases):
     for n, (seq, steps) in enumerate(zip(metas, res)):
         if steps is None:
             continue
-        for e, st in zip(seq[-len(steps):] if quiet else seq, steps):
+        for e, st in zip(seq, steps):
             nsteps += 1
             want = sc_state(e['to']) + [v_model_to_real(e['reading'], INV_MODEL_SC) if e['op'][0] == 'get' else None]
             if not e['to']['init']:
